@@ -3,17 +3,18 @@
 Applies each patch to /repo, runs the frozen binary on all properties, reverts. Writes /verif/seeded/round2_frozen.json"""
 import json,glob,subprocess,sys,re,os
 frozen=sys.argv[1]
+REPO=os.environ.get('FROZEN_REPO','/repo')  # a scratch worktree at the commit the seeds were made on, when /repo has moved on since
 out_path=sys.argv[3] if len(sys.argv)>3 else '/verif/seeded/round2_frozen.json'
 res=json.load(open(out_path)) if os.path.exists(out_path) else {}
 for d in sorted(glob.glob((sys.argv[2] if len(sys.argv)>2 else '/tmp/seedout2')+'/C*/[ab]')):
     seed='/'.join(d.split('/')[-2:])
     if seed in res or not os.path.exists(d+'/patch.diff') or not os.path.exists(d+'/NOTES.md'): continue
-    if subprocess.run(['git','-C','/repo','status','--porcelain'],capture_output=True,text=True).stdout.strip(): sys.exit('/repo not clean')
-    if subprocess.run(['git','-C','/repo','apply',d+'/patch.diff']).returncode!=0: res[seed]={'error':'patch does not apply'}; continue
+    if subprocess.run(['git','-C',REPO,'status','--porcelain'],capture_output=True,text=True).stdout.strip(): sys.exit('/repo not clean')
+    if subprocess.run(['git','-C',REPO,'apply',d+'/patch.diff']).returncode!=0: res[seed]={'error':'patch does not apply'}; continue
     try:
-        o=subprocess.run([frozen,'-prop','all','-no-evidence'],capture_output=True,text=True).stdout
+        o=subprocess.run([frozen,'-prop','all','-no-evidence','-repo',REPO],capture_output=True,text=True).stdout
     finally:
-        subprocess.run(['git','-C','/repo','checkout','--','.'])
+        subprocess.run(['git','-C',REPO,'checkout','--','.'])
     props=sorted(set(re.findall(r'VIOLATION property=(C\d+)',o)))
     rules=sorted(set(m.group(1) for m in re.finditer(r': (C\d+\.R\d+) .*\[(?:violated|undecided)\]',o)))
     res[seed]={'properties':props,'rules':rules,'own':seed.split('/')[0] in props}
